@@ -1,7 +1,67 @@
 """helpers shared by the C02 translators"""
 import re
 
-from ..rustscan import ExtractError, match_brace
+from ..rustscan import ExtractError, match_brace, mask, read
+
+
+def strip_verif(src):
+    """source with every item / statement guarded by `#[cfg(prqlc_verif)]` blanked out (offsets and line
+    numbers kept).  The verification hooks of /repo are compiled only into the harness; normal builds never
+    see them, so the translators must not either: a hook placed inside a function that is tied by its exact
+    text must not break (or, worse, alter) the tie.  Fails closed on a guard it cannot delimit."""
+    m = mask(src)
+    out = list(src)
+    pos = 0
+    while True:
+        mm = re.compile(r"#\s*\[\s*cfg\s*\(\s*prqlc_verif\s*\)\s*\]").search(m, pos)
+        if not mm:
+            break
+        i = mm.end()
+        while i < len(m) and m[i].isspace():
+            i += 1
+        # further attributes on the same item
+        while m.startswith("#[", i):
+            i = match_brace(m, i + 1) + 1
+            while i < len(m) and m[i].isspace():
+                i += 1
+        is_let = re.match(r"let\b", m[i:]) is not None
+        depth = 0
+        j = i
+        end = None
+        while j < len(m):
+            ch = m[j]
+            if ch in "([{":
+                if ch == "{" and depth == 0 and not is_let:
+                    k = match_brace(m, j)
+                    # `if .. { } else { }`, `match x { }.method()`, `x { .. };`
+                    t = k + 1
+                    while t < len(m) and m[t].isspace():
+                        t += 1
+                    if m.startswith("else", t) or m.startswith(".", t):
+                        j = k + 1
+                        continue
+                    end = t + 1 if m.startswith(";", t) else k + 1
+                    break
+                j = match_brace(m, j) + 1
+                continue
+            if ch in ")]}":
+                raise ExtractError("cfg(prqlc_verif) guard at offset %d: item not delimited" % mm.start())
+            if ch == ";":
+                end = j + 1
+                break
+            j += 1
+        if end is None:
+            raise ExtractError("cfg(prqlc_verif) guard at offset %d: item not delimited" % mm.start())
+        for t in range(mm.start(), end):
+            if out[t] != "\n":
+                out[t] = " "
+        pos = end
+    return "".join(out)
+
+
+def read_code(rel):
+    """rustscan.read without the cfg(prqlc_verif) items"""
+    return strip_verif(read(rel))
 
 
 def fn_body(src, m, name):
